@@ -38,6 +38,23 @@ def shapes(tier):
             yield sc
 
 
+def reuse_shapes():
+    """the application starts the next transfer to the same peer right after the first one was acknowledged — at an instant that
+    falls into the suspension of the job thread when that thread is about to clear the finished session away"""
+    for win in (1, 'all'):
+        sc = shape('j1939-21', 'p2p', win, size=13)
+        base = scen.run(dict(sc))
+        acks = [e[0] for e in base.trace if e[2] == 'tx' and e[1] == 1 and ((e[3] >> 16) & 0xFF) == 0xEC and e[6][0] == 19]
+        if not acks:
+            continue
+        for dt in (400, 650):
+            sc2 = shape('j1939-21', 'p2p', win, size=13)
+            a2 = [0, 0xD0, 0x20, 6, 0x10, dict(seed=77, len=17)]
+            sc2['script'].append(dict(t=acks[0] + 300 + dt, s=0, op='send', a=a2))
+            sc2['reuse'] = dict(a2=a2)
+            yield sc2
+
+
 def sweep(sc, holds, step=1, stop_after=None):
     """yields (hold, res) for every line index of both job threads"""
     for s in (0, 1):
@@ -59,6 +76,22 @@ def runner(sc):
 
 
 def oracle(sc, res):
+    if sc.get('reuse'):
+        # first payload exactly once; the second exactly once if its send_pgn was accepted, not at all if it was refused
+        v = []
+        sends = [ev for ev in sc['script'] if ev['op'] == 'send']
+        p1, p2 = tuple(scen.payload(sends[0]['a'][5])), tuple(scen.payload(sc['reuse']['a2'][5]))
+        rets = [r for ev, r in res.returns if ev['op'] == 'send']
+        got = [tuple(e[7]) for e in res.trace if e[2] == 'cb' and e[1] == 1]
+        want = [p1] + ([p2] if len(rets) > 1 and rets[1] is True else [])
+        if sorted(got) != sorted(want):
+            v.append(dict(kind='accepted-message-not-delivered-exactly-once', accepted=[str(r) for r in rets], deliveries=[len(g) for g in got]))
+        for j, js in enumerate(res.job):
+            if js != 'alive':
+                v.append(dict(kind='job-thread-' + js, stack=j))
+        if not all(res.empty):
+            v.append(dict(kind='session-left-at-end', empty=res.empty))
+        return v
     if sc.get('from_timer'):
         a = sc['from_timer']['a']
         want = tuple(scen.payload(a[5]))
@@ -79,7 +112,7 @@ def explore(out, tier, second=0):
     worst = {}
     holds = [700] if tier == 'quick' else [200, 700, 5000]
     n = 0
-    for sc in shapes(tier):
+    for sc in list(shapes(tier)) + list(reuse_shapes()):
         base = scen.run(dict(sc))
         if oracle(sc, base):
             worst.setdefault('baseline-' + oracle(sc, base)[0]['kind'], (oracle(sc, base)[0], sc))
@@ -88,9 +121,9 @@ def explore(out, tier, second=0):
             if held is None:
                 continue
             n += 1
-            out.add_case((sc['dll'], sc['kind'], sc['win'], bool(sc.get('from_timer')), h['s'], h['k'], h['d']), True,
+            out.add_case((sc['dll'], sc['kind'], sc['win'], bool(sc.get('from_timer')), json.dumps(sc.get('reuse'), sort_keys=True) + str(len(sc['script'])) + str(sc['script'][-1]['t']), h['s'], h['k'], h['d']), True,
                          sample=dict(dll=sc['dll'], kind=sc['kind'], window=sc['win'], hold=h, held_at=held) if len(out.samples) < 4 else None)
-            for x in oracle(sc, res) + same_as_undisturbed(base, res):
+            for x in oracle(sc, res) + ([] if sc.get('reuse') else same_as_undisturbed(base, res)):
                 key = x['kind']
                 if key not in worst:
                     worst[key] = (dict(x, held_at=held, hold=h), dict(sc, hold=h))
